@@ -45,3 +45,17 @@ class ETParse(Contract):
         return [Case('parsed', ret=tree, assume=[file_readable(pt), wellformed(file_text(pt)), r != null, born(r) == 0]),
                 Case('malformed', exc='ParseError', assume=[file_readable(pt), z3.Not(wellformed(file_text(pt)))]),
                 Case('unreadable', exc='OSError', assume=[z3.Not(file_readable(pt))])]
+
+
+@contract('lib.ElementTree.tostring')
+class ETToString(Contract):
+    """A-ET-RT (first half): tostring is a function of the tree content; never None"""
+    assumed = True
+    props = ()
+
+    def cases(self, cx):
+        cx.E.assumed_used.add('A-ET-RT')
+        e = cx.a['element']
+        H = cx.H
+        r = SStr(L.mkfun('xml_tostring_%d_%d' % (H.kv, H.tv), Node, Str)(e.t))
+        return [Case('text', ret=r, assume=[r.t != none_s])]
